@@ -186,6 +186,12 @@ class Hand(twisted.internet.protocol.Protocol):
                 self.__buf = self.__buf[length:]
                 self.__len = None
                 self._process(msg)
+                if self.transport.disconnecting:
+                    # the message made us hang up: disregard whatever
+                    # followed it in the same packet (as twisted's
+                    # LineReceiver does) because it would never have
+                    # been delivered had it arrived in its own packet
+                    break
                 pass
 
             length = self.__blen if self.__len is None else self.__len
